@@ -31,10 +31,15 @@ var scalarDecoders = []struct {
 }
 
 // c07DecodeCase presents b to decoder di with a receiver previously holding prev.
-func c07DecodeCase(di int, b []byte, prev *big.Int) (key, detail string) {
+// scratch, when non-nil, is a long-lived caller buffer the input is written into (buffer reuse across calls).
+func c07DecodeCase(di int, b []byte, prev *big.Int, scratch []byte) (key, detail string) {
 	d := scalarDecoders[di]
 	s := newScalar(prev)
 	in := append([]byte{}, b...)
+
+	if scratch != nil && len(b) <= len(scratch) {
+		in = scratch[:copy(scratch, b)]
+	}
 
 	var err error
 
@@ -201,15 +206,25 @@ func C07(r *ev.Report) {
 	r.Bound("strings", len(strs))
 	r.States.Add(int64(len(strs)))
 
-	r.ParFor(len(strs), func(_, i int) {
+	scratch := make([][]byte, ev.Workers()+1)
+	for i := range scratch {
+		scratch[i] = make([]byte, 96)
+	}
+
+	r.ParFor(len(strs), func(w, i int) {
 		b := strs[i]
 
 		for di := range scalarDecoders {
-			for _, prev := range prevs {
+			for pi, prev := range prevs {
 				r.Transitions.Add(1)
 				r.Evals.Add(1)
 
-				key, detail := c07DecodeCase(di, b, prev)
+				var sc []byte
+				if pi == 1 {
+					sc = scratch[w]
+				}
+
+				key, detail := c07DecodeCase(di, b, prev, sc)
 				if key != "" {
 					r.Violation(key, detail, Case{"op": "decode", "decoder": fmt.Sprint(di), "input": hb(b), "prev": hx(prev)})
 				}
@@ -273,7 +288,7 @@ func init() {
 		case "decode":
 			var di int
 			fmt.Sscan(c["decoder"], &di)
-			key, detail = c07DecodeCase(di, unhb(c["input"]), unhx(c["prev"]))
+			key, detail = c07DecodeCase(di, unhb(c["input"]), unhx(c["prev"]), nil)
 		case "encode":
 			key, detail = c07EncodeCase(unhx(c["v"]))
 		case "hex":
